@@ -109,7 +109,15 @@ class IncludeNode(Node):
                 key = self.alias or template.name.split(".")[0]
 
                 if isinstance(val, Sequence) and not isinstance(val, str):
-                    with context.carry_loop(len(val)):
+                    try:
+                        length = len(val)
+                    except OverflowError as err:
+                        # A range longer than sys.maxsize.
+                        raise LiquidTypeError(
+                            "range is too large", token=self.token
+                        ) from err
+
+                    with context.carry_loop(length):
                         for itm in val:
                             namespace[key] = itm
                             character_count += template.render_with_context(
@@ -160,7 +168,15 @@ class IncludeNode(Node):
                 key = self.alias or template.name.split(".")[0]
 
                 if isinstance(val, Sequence) and not isinstance(val, str):
-                    with context.carry_loop(len(val)):
+                    try:
+                        length = len(val)
+                    except OverflowError as err:
+                        # A range longer than sys.maxsize.
+                        raise LiquidTypeError(
+                            "range is too large", token=self.token
+                        ) from err
+
+                    with context.carry_loop(length):
                         for itm in val:
                             namespace[key] = itm
                             character_count += (
